@@ -642,6 +642,14 @@ func (s *c19DevSys) deliver(c *nodeDeviceCache, ev c19DevEvent) {
 		}
 		n.Labels["c19/touched"] = "true"
 		c.onPodUpdate(pod, n)
+	case "prebind-then-bound":
+		// the cut lies between PreBind's patch and the moment the binding becomes visible: first the still pending pod that
+		// already carries the persisted allocation, then the update that only sets spec.nodeName
+		pend := pod.DeepCopy()
+		pend.Spec.NodeName = ""
+		pend.ResourceVersion = "1"
+		c.onPodAdd(pend)
+		c.onPodUpdate(pend, pod)
 	}
 }
 
@@ -747,6 +755,11 @@ func (s *c19DevSys) restartCheck() *c19DevVerdict {
 				if pos != n-1 {
 					judge(append(append([]c19DevEvent{}, base...), c19DevEvent{kind, o}), variant)
 				}
+			}
+			if o != 0 && s.pods[o-1].obj.Spec.NodeName != "" {
+				two := append([]c19DevEvent{}, base...)
+				two[pos] = c19DevEvent{"prebind-then-bound", o}
+				judge(two, "prebind-then-bound-pod")
 			}
 		}
 	})
@@ -910,7 +923,7 @@ func TestVerifC19Dev(t *testing.T) {
 		res.Evaluations += res.Counters["rebuilds"]
 		res.Distinct = cfg.nontrv.Len()
 		for _, need := range []string{"binds", "readback_equal", "states_with_surviving_bound_pods", "states_with_2+_surviving_bound_pods",
-			"rebuilds_plain", "rebuilds_dup-add-pod", "rebuilds_same-update-pod", "rebuilds_dup-add-device", "rebuilds_same-update-device", "rebuilds_pod_before_device",
+			"rebuilds_plain", "rebuilds_dup-add-pod", "rebuilds_same-update-pod", "rebuilds_prebind-then-bound-pod", "rebuilds_dup-add-device", "rebuilds_same-update-device", "rebuilds_pod_before_device",
 			"corollary_checked", "pod_deletes", "pod_terminations", "reserve_unreserve_cycles", "binds_multi_device"} {
 			if res.Counters[need] == 0 {
 				res.Diag("VACUOUS: counter " + need + " stayed 0 in part " + cfg.name)
